@@ -1,7 +1,7 @@
 (* EncLineImage: (1) the [HitObjects] section -- every line the encoder writes for
    a list of encodable objects is accepted in every parser state and adds exactly
    one object; (2) the line-level image of the decoder -- what holds of every
-   object that an accepted hit-object line adds ([line_image]). *)
+   object that an accepted hit-object line adds ([object_image]). *)
 From RM Require Import Model.EncPathSpec Model.HitObjectSpec Proofs.EncText Proofs.EncFmt Proofs.EncFloat
      Proofs.EncSimple Proofs.EncObjects Proofs.FramingFacts Proofs.NumFacts Proofs.PathStringFacts
      Proofs.EncPathEnc Proofs.EncPathDec Proofs.EncPathRT Proofs.EncPathImage Proofs.EncSlider
@@ -155,10 +155,10 @@ Proof.
   - exact (node_samples_length _ _ _ _ _ _ En).
 Qed.
 
-(* every accepted line adds one object, and that object satisfies [line_image] *)
-Theorem parse_line_image st line st' :
+(* every accepted line adds one object, and that object satisfies [object_image] *)
+Theorem parse_object_image st line st' :
   parse_hit_objects st line = Done (st', Ok) ->
-  exists o, ho_objects st' = ho_objects st ++ [o] /\ line_image o = true.
+  exists o, ho_objects st' = ho_objects st ++ [o] /\ object_image o = true.
 Proof.
   intros H. destruct (parse_hit_objects_spec st line) as [scratch Hs]. rewrite Hs in H. clear Hs.
   injection H as H. unfold line_spec_with in H.
@@ -169,7 +169,7 @@ Proof.
   destruct (flag_bit hot_circle (f_type f)).
   { (* circle *)
     destruct (extras_spec _) as [bank|]; [|discriminate]. unfold accept in H. injection H as <-.
-    eexists. split; [reflexivity|]. unfold line_image. cbn [h_start h_kind ci_pos ci_combo_offset].
+    eexists. split; [reflexivity|]. unfold object_image. cbn [h_start h_kind ci_pos ci_combo_offset].
     rewrite Ct, Cx, Cy. cbn [andb]. lia. }
   destruct (flag_bit hot_slider (f_type f)).
   { (* slider *)
@@ -177,7 +177,7 @@ Proof.
     destruct (slider_fields_image _ _ _ Ep) as (Hrc & Hlen & Hn).
     destruct (path_spec (spre_point_str pre) (f_pos f)) as [cps ok] eqn:Eps.
     destruct ok; [|discriminate]. unfold accept in H. injection H as <-.
-    eexists. split; [reflexivity|]. unfold line_image.
+    eexists. split; [reflexivity|]. unfold object_image.
     cbn [h_start h_kind sl_pos sl_combo_offset sl_control_points sl_repeat_count sl_expected_dist sl_node_samples].
     rewrite Ct, Cx, Cy, (path_spec_image (f_pos f) _ cps Cx Cy Eps), Hn. cbn [andb].
     destruct (spre_len pre) as [d|]; [rewrite Hlen|]; unfold repeat_cap in *; lia. }
@@ -185,16 +185,16 @@ Proof.
   { (* spinner *)
     destruct (obnd _ pn_f64) as [e|]; [|discriminate]. destruct (extras_spec _) as [bank|]; [|discriminate].
     unfold accept in H. injection H as <-.
-    eexists. split; [reflexivity|]. unfold line_image. cbn [h_start h_kind sp_pos].
+    eexists. split; [reflexivity|]. unfold object_image. cbn [h_start h_kind sp_pos].
     rewrite Ct, spinner_pos_ok. reflexivity. }
   destruct (flag_bit hot_hold (f_type f)); [|discriminate].
   (* hold *)
   destruct (nth_error (f_rest f) 0) as [[|c s]|].
   - unfold accept in H. injection H as <-. eexists. split; [reflexivity|].
-    unfold line_image. cbn [h_start h_kind hd_pos_x]. rewrite Ct, Cx. reflexivity.
+    unfold object_image. cbn [h_start h_kind hd_pos_x]. rewrite Ct, Cx. reflexivity.
   - destruct (obnd _ pn_f64) as [e|]; [|discriminate]. destruct (banks_spec _ _ _) as [bank|]; [|discriminate].
     unfold accept in H. injection H as <-. eexists. split; [reflexivity|].
-    unfold line_image. cbn [h_start h_kind hd_pos_x]. rewrite Ct, Cx. reflexivity.
+    unfold object_image. cbn [h_start h_kind hd_pos_x]. rewrite Ct, Cx. reflexivity.
   - unfold accept in H. injection H as <-. eexists. split; [reflexivity|].
-    unfold line_image. cbn [h_start h_kind hd_pos_x]. rewrite Ct, Cx. reflexivity.
+    unfold object_image. cbn [h_start h_kind hd_pos_x]. rewrite Ct, Cx. reflexivity.
 Qed.
